@@ -68,7 +68,15 @@ func c08Build(p c08Case) *h.Scenario {
 	g.Opts.FastNodeRemovalRate, g.Opts.SlowNodeRemovalRate = p.K, 0
 	return &h.Scenario{
 		Name: fmt.Sprintf("c08.t%v.p%v.k%d", p.Times, p.Perm, p.K), Groups: []h.GroupSpec{g}, Slots: 1, Quantum: Q,
-		FaultOps: map[string]bool{sim.OpK8sGet: true, sim.OpK8sUpdate: true},
+		FaultOps:         map[string]bool{sim.OpK8sGet: true, sim.OpK8sUpdate: true},
+		MaxEventsPerSlot: 1,
+		Events: func(hh *h.Hist, slot int) []h.Event {
+			var ev []h.Event
+			for _, n := range groupNodes(hh, g, 5) {
+				ev = append(ev, evRejectNode(n.Name))
+			}
+			return ev
+		},
 		Init: func(hh *h.Hist) {
 			a := InitASGs(hh)[0]
 			for _, i := range p.Perm {
@@ -101,12 +109,42 @@ func perms(n int) [][]int {
 	return out
 }
 
+// c08MultiScan: an idle group tainted one node per scan over six scans, with the API rejecting a
+// node for whole scans (state carried from scan to scan must not change who is oldest).
+func c08MultiScan(pattern string) *h.Scenario {
+	g := StdGroup("g1")
+	g.Opts.MinNodes = 0
+	g.Opts.FastNodeRemovalRate, g.Opts.SlowNodeRemovalRate = 1, 1
+	g.Opts.SoftDeleteGracePeriod, g.Opts.HardDeleteGracePeriod = dur(30), dur(60)
+	return &h.Scenario{Name: "c08.multiscan." + pattern, Groups: []h.GroupSpec{g}, Slots: 6, Quantum: Q, MaxEventsPerSlot: 1, BoundExact: 3,
+		Init: func(hh *h.Hist) {
+			a := InitASGs(hh)[0]
+			for i := 0; i < 6; i++ {
+				age := 40 - 2*i
+				if pattern == "ties" {
+					age = 40 - 4*(i/2)
+				}
+				hh.W.AddNode(a, sim.NodeOpt{Age: time.Duration(age) * Q})
+			}
+		},
+		Events: func(hh *h.Hist, slot int) []h.Event {
+			var ev []h.Event
+			for _, n := range groupNodes(hh, g, 3) {
+				if _, tainted := h.HasTaint(n, h.TaintKey); !tainted {
+					ev = append(ev, evRejectNode(n.Name))
+				}
+			}
+			return ev
+		},
+	}
+}
+
 func C08Scenarios(tier string) []*h.Scenario {
 	maxN := 4
 	if tier == "thorough" {
 		maxN = 5
 	}
-	var out []*h.Scenario
+	out := []*h.Scenario{c08MultiScan("distinct"), c08MultiScan("ties")}
 	for n := 1; n <= maxN; n++ {
 		total := 1
 		for i := 0; i < n; i++ {
@@ -133,7 +171,7 @@ func init() {
 	register(&Check{
 		ID:    "C08",
 		Level: "model_checking",
-		Rule: "every assignment of creation times from {zero value, t1, t2, t3} to 1..4 (5 thorough) untainted nodes x every list order x every taint count 0..n, each explored with no fault and with a failure at every single get / update position of the taint loop; " +
+		Rule: "every assignment of creation times from {zero value, t1, t2, t3} to 1..4 (5 thorough) untainted nodes x every list order x every taint count 0..n, each explored with no fault, with a failure at every single get / update position of the taint loop, and with the API rejecting every call on one node; six-scan histories (one taint per scan) with a node rejected for up to three whole scans; " +
 			"non-trivial = scans that tainted at least one node; distinct = (times, order, count, fault position) outcome traces",
 		Scenarios:       C08Scenarios,
 		ShardByScenario: true,
